@@ -9,26 +9,73 @@ _conc = importlib.util.module_from_spec(_spec)
 _spec.loader.exec_module(_conc)
 
 
+def extract(ctx):
+    """regenerate the facts; a fact the extractor could not establish is noted and makes this run look harder"""
+    import re
+    txt = _conc.extract(ctx, "C11", "C11.lean")
+    _conc.extract(ctx, "C13", "C13.lean")  # Props/C11 also uses the shared-object write facts of the C13 extractor
+    unknown = re.findall(r"def (\w+)Known : Bool := false\ndef \w+Why : String := \"([^\"]*)\"", txt)
+    if unknown:
+        ctx.notes.append("facts NOT established by the extractor (no obligation depends on them in this run; the stress run is "
+                         "amplified instead): " + "; ".join(f"{n}: {w}" for n, w in unknown))
+        ctx.c11_amplify = True
+    return txt
+
+
+def amplify(ctx):
+    """facts not established: run the thorough-tier stress in the same run"""
+    ctx.log("amplify: facts not established -> thorough-tier stress in this run")
+    cases, gores, model, bad = _conc.stress(ctx, ctx.harness, "thorough", "amplify", SPEC.get("shards", 8), 900)
+    ctx.coverage["amplified_evaluations"] = len(cases)
+    for i in bad[:2]:
+        rp = checklib.write_replay(ctx, "input", {"payload": cases[i], "readable": cases[i]},
+                                   model.get(i, ("MISSING", {}))[0], gores.get(i, "MISSING"),
+                                   f"./check {ctx.prop} --replay <this file>", tag="amplify")
+        checklib.violation(ctx, rp, f"(amplified run) go={gores.get(i, 'MISSING')[:80]!r}")
+    checklib.write_evidence(ctx)
+    return 1 if ctx.violations else 0
+
+
 def decode(p):
     return dict(kv.split("=", 1) for kv in p.split(" ") if "=" in kv)
 
 
+import re
+
+# race reports count when a frame lies in the code of this property: interpreter/, scope/, parser/ and the
+# engine files the property is anchored in (task queue, monitor, processor). engine/pool (the worker pool)
+# belongs to C09, engine/pubsub to C02.
+RACE_DIRS_C11 = re.compile(r"/(parser|interpreter|scope)/[A-Za-z0-9_]+\.go:\d+|/engine/(taskqueue|monitor|processor|rule|event)\.go:\d+")
+
 SPEC = dict(
+    race_dirs=RACE_DIRS_C11,
     lean_modules=["Ecal.Props.C11"],
     shards=12,
     budget_s=900,
-    extract=lambda ctx: _conc.extract(ctx, "C11", "C11.lean"),
+    extract=extract,
     rule=("one case = one stress configuration + seed: a processor with w in {2,3,4,6,8,12,16} workers, 1..3 sinks "
           "(kindmatch t.a / t.* / t.b, priorities 1..3, fail-on-first-error on or off), ev events submitted by h goroutines "
-          "(AddEventAndWait, or bursts of AddEvent with one root monitor per event); every event carries its id and per sink an "
-          "instruction: succeed / raise(T_<sink>_<id>, d<id>, id) / return id / Go function failing with E_<sink>_<id>; every "
-          "invocation echoes the id through `event`, a local and a shared global function (and increments a mutex-protected global); "
-          "in a third of the cases the DECLARING scope defines variables named `event` and `v` (the names an invocation scope / a "
-          "call frame stores before it is linked to its parent) which must stay untouched, in a third the sink reads `event`, pauses, reads again. "
-          "Compared per event with the report dictated by its payload: result = lost, duplicated, mis-attributed errors "
-          "(type, detail, data, attached environment), wrong/missing/extra echoes. Non-trivial = at least 2 workers, "
-          "at least 2 events in flight and at least 100 events."),
+          "(AddEventAndWait, or bursts of AddEvent with one root monitor per event). The instruction table is a deterministic function of "
+          "(seed, event id): kind, per sink succeed / raise(T_<sink>_<id>, d<id>, id) / return id / Go function failing with E_<sink>_<id>, "
+          "cascade. Sink bodies are composed from features: try/except re-raising e.type/e.detail/e.data with naps in finally and except, "
+          "nested function + lambda, object method via new, default parameter evaluated in the caller, sinks declared inside a function, "
+          "with / without the shared global function, heavy loop; two-level cascade (sink s2 adds 2..4 child events, each child's sink adds "
+          "2 grandchild events on whatever worker runs it; their failures are recorded under the root's monitor); read-pause-read of `event`; "
+          "the declaring scope defining `event` and `v`; a mutex-protected global counter. Observed and digested: every error recorded under "
+          "every root monitor (event it is recorded under, rule, shape, id / sink / detail / data named inside the error, attached environment), "
+          "every invocation's echo (id through event / local / function chain / first read, accumulator, m.k), the global counter, the declaring "
+          "scope, duplicate root monitor ids. The Lean driver computes the same line from the payload alone (Ecal.SinkSpec: invocations each event "
+          "must cause and the outcome of each (sink, event)). Non-trivial = at least 2 workers, at least 2 events in flight and at least 100 events. "
+          "A slice of 8 cases runs under the race detector in the quick tier, the whole quick set in the thorough tier."),
     trusted_base=[
+        "hypothesis hW of `isolation` for the real evaluator: nothing an invocation executes writes shared state without protection. "
+        "Discharged only syntactically and in part: the closure assigns no captured variable (capturedWrites_nil), no Eval method of a "
+        "runtime component writes a field of a component or of the provider (runtime_components_write_nothing_shared, C13's extractor), "
+        "the scope methods lock and children adopt the tree lock (scope_locking). Writes through aliases, into event state maps, error "
+        "objects and instance-state maps are not seen; the stress and -race runs are the evidence for those",
+        "hypothesis hC: the observed part of an invocation does not depend on explicitly shared globals (true of the generated sinks)",
+        "the engine's recording of a returned error under the event's monitor (ProcessEvent, TaskError, RootMonitor.errors) is not "
+        "modelled here (C02); it is covered by the observed digests only",
         "the access classification is syntactic (go/ast): the extractor sees assignments to captured variables and to "
         "components of captured variables by name, not writes through aliases or inside called methods; the race-detector "
         "run of the thorough tier is the supporting evidence for those",
@@ -42,26 +89,30 @@ SPEC = dict(
 SPEC["search"] = _conc.search(SPEC)
 
 META = dict(
-    technique=("Lean 4 non-interference theorem over an interleaving model of N invocations sharing named cells; the captured-write set "
-               "of the action closure (and of function.Run) is re-extracted from the Go source (go/ast) on every run and checked by a "
-               "generated obligation; in-process stress with per-event expected reports (and -race in the thorough tier) as correspondence"),
-    level_text=("Proof (abstract model): for every number of overlapping invocations and every schedule, if the closure assigns no captured "
-                "variable, each invocation's outcome, `event` and locals equal those of running it alone, modulo the lock-protected globals "
-                "it explicitly shares (isolation); for the closure model every completed invocation returns exactly its own outcome — nothing "
-                "lost, duplicated or mis-attributed (errors_attributed); the unrepaired captured `err` loses and mis-attributes errors (witness). "
-                "`event` is invocation-local when it is stored before the scope gets its parent, also if the declaring scope has a variable of that name "
-                "(event_is_local; parent-first shares it: witness). "
-                "Tie to /repo: captured writes and the order of scope set-up calls extracted from the source on every run (obligations "
-                "capturedWrites_nil, scope_setup_local by decide); overlapping "
-                "invocations compared with per-event expected reports."),
-    level_note=("Trusted: Lean kernel + propext/Classical.choice/Quot.sound; the syntactic extractor (no alias analysis); sequential "
-                "consistency. The theorem is about the abstract invocation model, not about a Lean port of the evaluator; the recording of "
-                "returned errors by the engine is C02's subject; races are probabilistic, the stress and -race runs are supporting evidence."),
+    technique=("Lean 4 theorems over interleaving models (closure with variables by name, scope storage / parent chain, tree lock with a "
+               "fault outcome) + facts re-extracted from the Go source (go/ast, three-valued) on every run + in-process stress whose "
+               "expected outcome table is computed by the Lean driver from the payload (+ -race slice)"),
+    level_text=("Proof about abstract models, ASSUMING hW (nothing an invocation executes writes shared state unprotected) and hC (the observed "
+                "part does not read explicitly shared globals) for the real evaluator: for every number of overlapping invocations and every "
+                "schedule each invocation's outcome and `event` equal those of running it alone (isolation); the closure model with the extracted "
+                "captured-write list returns exactly outcome(sink, event) — nothing lost, duplicated, mis-attributed (errors_attributed); `event`, "
+                "`this`, `super` and parameters stay invocation-local for the extracted scope set-up order whatever the declaring scope defines "
+                "(stored_names_are_local on a scope model, storesLocal proved sound); locking scope-method calls never fault and never deadlock "
+                "(bookkeeping_never_faults). hW is discharged only as far as the regenerated syntactic facts go; locals created by the statements "
+                "are covered by hW, not by an instance theorem. Tie to /repo: facts + stress compared with the model-computed per-event table."),
+    level_note=("Trusted: Lean kernel + propext/Classical.choice/Quot.sound; the syntactic extractors (no alias analysis); sequential consistency; "
+                "the evaluator itself is not modelled (no Lean port of statement evaluation inside these models); the engine's error recording is "
+                "C02's; races are probabilistic — stress and -race runs are supporting evidence."),
 )
 
 
 def run(ctx):
     rc = checklib.standard(ctx, SPEC)
+    if getattr(ctx, "c11_amplify", False) and ctx.tier != "thorough":
+        rc = max(rc, amplify(ctx))
     if ctx.tier == "thorough":
         rc = max(rc, _conc.race_run(ctx, SPEC, tier="quick"))
+    else:
+        # a slice under the race detector in the quick tier too
+        rc = max(rc, _conc.race_run(ctx, SPEC, tier="quick", env_more={"VERIF_C11_CASES": "8", "VERIF_C11_EVENTS": "1500"}))
     return rc
